@@ -2,6 +2,7 @@
 processing_order() once per seed (random.seed(seed) first) and records the order as a
 sequence of record ids.  Drives and projects only - no verdicts."""
 import random
+import signal
 
 import dns.immutable
 import dns.name
@@ -50,6 +51,10 @@ def applicable(rtype, recs):
         return False
     if rtype in ("A", "TXT") and any(b for a, b, w in recs):
         return False
+    if rtype in ("IPSECKEY", "AMTRELAY"):   # 8-bit field: two different abstract values must stay different
+        bs = {b for a, b, w in recs}
+        if len({min(b, 255) for b in bs}) != len(bs):
+            return False
     return True
 
 
@@ -89,9 +94,26 @@ def replay(job):
             "insertion": insertion, "ev": ev}
 
 
+class Budget(BaseException):
+    pass
+
+
+def _budget(signum, frame):
+    raise Budget("CPU budget of %ds exceeded" % CPU_BUDGET_S)
+
+
+CPU_BUDGET_S = 5
+
+
 def run_job(job):
+    # CPU-time budget (not wall clock): a call that never returns becomes a driver-error event
+    signal.signal(signal.SIGVTALRM, _budget)
+    signal.setitimer(signal.ITIMER_VIRTUAL, CPU_BUDGET_S)
     try:
-        return replay(job)
-    except Exception as x:  # a driver failure is an event nobody matches
+        r = replay(job)
+        signal.setitimer(signal.ITIMER_VIRTUAL, 0)
+        return r
+    except (Exception, Budget) as x:  # a driver failure is an event nobody matches
+        signal.setitimer(signal.ITIMER_VIRTUAL, 0)
         return {"tid": job["tid"], "rtype": job["rtype"], "kind": job["kind"], "container": job["container"],
                 "recs": [list(r) for r in job["recs"]], "insertion": [], "ev": [{"op": "driver-error", "exc": repr(x)}]}
